@@ -31,7 +31,7 @@ RULE = ('sweep: for every corpus file x dialect: truncation at every byte offset
         'distinct = distinct (file, fault kind, outcome class, error class, position class); non-trivial = every damaged text')
 ASSUMPTIONS = ['covers the fault-reachable neighbourhood of well-formed MIBs, not arbitrary strings (that would be input fuzzing)',
                'termination is judged with a wall cap per chunk of parses']
-SWEEP_SET = {'quick': '6 corpus files: all prefixes (3 dialects), all single-byte replacements x 5 characters (compat dialect), every token deleted / duplicated / case-swapped, oversize numbers substituted for every integer literal, all declaration-line insertions x 6 kinds, all comment/indent replacements, compile() truncations every 7th offset',
+SWEEP_SET = {'quick': '6 corpus files: all prefixes (3 dialects), all single-byte replacements x 5 characters (compat dialect), every token deleted / duplicated / case-swapped, oversize numbers substituted for every integer literal, every multi-line string with mixed CR / LF / CR LF line breaks followed by an illegal character, 14 predecessor texts (accepted and rejected, ending in every lexer state) x 6 judged texts x 3 dialects on one parser object, all declaration-line insertions x 6 kinds, all comment/indent replacements, compile() truncations every 7th offset',
              'thorough': '9 corpus files, same fault kinds, compile() truncations every 3rd offset'}
 
 ALPHABET = ['@', '"', '{', '7', '\n', '%']
@@ -93,8 +93,10 @@ def _vt_fire(signum, frame):
     raise ParseTimeout()
 
 
-def attempt(d, text):
-    """-> ('ok', trees) | ('lexerr', exc) | ('foreign', exc) | ('timeout', None)"""
+def attempt(d, text, pred=None):
+    """-> ('ok', trees) | ('lexerr', exc) | ('foreign', exc) | ('timeout', None)
+    pred: a text the same parser object is given first, exactly as an application would (parse() only, whatever it
+    returns or raises); the judged text follows without anything in between"""
     import signal
     from pysmi import error
     p = parser(d)
@@ -102,6 +104,15 @@ def attempt(d, text):
     signal.setitimer(signal.ITIMER_VIRTUAL, PARSE_CPU_CAP_S)
     try:
         try:
+            if pred is not None:
+                try:
+                    p.parse(pred)
+                except ParseTimeout:
+                    raise
+                except (core.WorldTimeout, core.StepBudget, KeyboardInterrupt):
+                    raise
+                except BaseException:  # noqa
+                    pass
             return 'ok', p.parse(text)
         finally:
             signal.setitimer(signal.ITIMER_VIRTUAL, 0)
@@ -299,6 +310,73 @@ def run(scn):
                 J.V('C11.2-line', 'the second copy of a %d-line string starts on line %d of %s; the error reports line %r' % (tok.count(f.eol) + 1, want, f.name, getattr(res[1], 'lineno', None)),
                     what='wrong-line-multiline-token', delta=(getattr(res[1], 'lineno', 0) or 0) - want)
             J.sigs.add((f.name, 'dupstring', res[0], type(res[1]).__name__ if res[0] != 'ok' else 'ok'))
+    elif k == 'mixedeol':
+        # the line breaks inside one quoted string follow different conventions (a file edited on several systems, a
+        # CR CR LF artefact of a text-mode transfer); an illegal character right behind the string is on the line where
+        # the string ends
+        f = fl[scn['file']]
+        for (pos, end) in scn['spans']:
+            tok = f.text[pos:end]
+            for start in range(3):
+                cyc = ['\r', '\n', '\r\n']
+                cnt = [start]
+
+                def brk(m):
+                    cnt[0] += 1
+                    return cyc[cnt[0] % 3]
+                tok2 = re.sub(r'\r\n|\n|\r', brk, tok)
+                text = f.text[:pos] + tok2 + ' @' + f.text[end:]
+                want = nlines(f.text[:pos] + tok2)
+                res = attempt(d, text)
+                J.units += 1
+                J.fire('mixed-line-ends-in-string')
+                J.clause1(res, text, 'for file %s with mixed line ends in the string at %d' % (f.name, pos))
+                if res[0] == 'ok':
+                    J.V('C11.3-truncated', 'an illegal character behind the string at offset %d of %s was accepted' % (pos, f.name), what='accepted-garbage', inserted='illegal-after-string')
+                elif res[0] == 'lexerr' and getattr(res[1], 'lineno', None) != want:
+                    J.V('C11.2-line', 'illegal character on line %d of %s (behind a string whose line breaks are a mix of CR, LF and CR LF) reported at line %r' % (
+                        want, f.name, getattr(res[1], 'lineno', None)), what='wrong-line-mixed-eol', delta=(getattr(res[1], 'lineno', 0) or 0) - want)
+                J.sigs.add((f.name, 'mixedeol', start, res[0], type(res[1]).__name__ if res[0] != 'ok' else 'ok'))
+    elif k == 'after':
+        # the parser object has just processed another text (accepted or rejected, ending in any lexer state); the
+        # judged text must be treated as if it were the first
+        f = fl[scn['file']]
+        ref = intact(tier, scn['file'], d)
+        first_eol = f.text.find(f.eol)
+        lines = f.text.split(f.eol)
+        dl_ = f.decl_lines()
+        mid = dl_[len(dl_) // 2] if dl_ else 1      # 1-based line number of a declaration: an insertion point outside strings and comments
+        for pi in scn['preds']:
+            pname, ptext = PREDECESSORS[pi]
+            ptext = ptext.replace('\n', f.eol) if scn.get('pred_eol') else ptext
+            judged = [('intact', f.text, None),
+                      ('illegal-line-1', '@' + f.eol + f.text, 1),
+                      ('illegal-in-line-1', '@ ' + f.text, 1),
+                      ('forbidden-line-1', 'FALSE ' + f.text, 1),
+                      ('cut-in-line-1', f.text[:max(1, first_eol)], None),
+                      ('illegal-mid', f.eol.join(lines[:mid - 1] + ['@'] + lines[mid - 1:]), mid)]
+            for jname, text, want in judged:
+                if J.abort:
+                    break
+                res = attempt(d, text, pred=ptext)
+                J.units += 1
+                J.fire('predecessor:' + pname)
+                J.clause1(res, text, 'for file %s (%s) given to a parser that had just processed %r' % (f.name, jname, pname))
+                if jname == 'intact':
+                    if ref is not None and (res[0] != 'ok' or res[1] != ref):
+                        J.V('C11.4-unchanged', 'the intact file %s is %s by a parser object that had just processed %r' % (
+                            f.name, 'rejected (%s)' % res[1] if res[0] != 'ok' else 'parsed differently', pname), what='after-predecessor-intact', predecessor=pname)
+                elif jname == 'cut-in-line-1':
+                    if res[0] == 'ok' and f.inside_module(max(1, first_eol)):
+                        J.V('C11.3-truncated', 'text of %s cut inside its first line was accepted (%d modules) by a parser object that had just processed %r' % (f.name, len(res[1]), pname),
+                            what='accepted-truncated-after-predecessor', predecessor=pname)
+                elif res[0] == 'ok':
+                    J.V('C11.3-truncated', '%s of %s was accepted by a parser object that had just processed %r' % (jname, f.name, pname), what='accepted-garbage-after-predecessor',
+                        predecessor=pname, inserted=jname)
+                elif res[0] == 'lexerr' and getattr(res[1], 'lineno', None) != want:
+                    J.V('C11.2-line', '%s of %s reported at line %r instead of %d by a parser object that had just processed %r' % (jname, f.name, getattr(res[1], 'lineno', None), want, pname),
+                        what='wrong-line-after-predecessor', predecessor=pname, inserted=jname)
+                J.sigs.add((f.name, 'after', pname, jname, res[0], type(res[1]).__name__ if res[0] != 'ok' else 'ok'))
     elif k in ('comment', 'indent'):
         f = fl[scn['file']]
         ref = intact(tier, scn['file'], d)
@@ -553,6 +631,25 @@ def run_compile(scn, J, tier):
 # --------------------------------------------------------------------------
 # (literal, must be rejected): beyond 64 bits, beyond the interpreter's own limit for decimal conversion (4300 digits), and small values written with
 # thousands of leading zeros
+_OKMOD = 'PRED-MIB DEFINITIONS ::= BEGIN\npredNode OBJECT IDENTIFIER ::= { iso 1 }\nEND'
+PREDECESSORS = [
+    ('accepted, ends in a comment without line break', _OKMOD + ' -- end of PRED-MIB'),
+    ('accepted, ends with END without line break', _OKMOD),
+    ('accepted, 40 trailing blank lines', _OKMOD + '\n' * 40),
+    ('comment only, no line break', '-- nothing but a comment'),
+    ('empty', ''),
+    ('rejected inside a quoted string', 'PRED-MIB DEFINITIONS ::= BEGIN\npredNode OBJECT-IDENTITY STATUS current DESCRIPTION "never closed\n\n\n'),
+    ('rejected inside a MACRO body', 'PRED-MIB DEFINITIONS ::= BEGIN\nOBJECT-TYPE MACRO ::=\nBEGIN\n  TYPE NOTATION ::= "SYNTAX"\n\n'),
+    ('rejected inside a CHOICE', 'PRED-MIB DEFINITIONS ::= BEGIN\nPredChoice ::= CHOICE {\n a INTEGER,\n'),
+    ('rejected inside EXPORTS', 'PRED-MIB DEFINITIONS ::= BEGIN\nEXPORTS a, b,\n c\n'),
+    ('rejected by an illegal character on line 30', 'PRED-MIB DEFINITIONS ::= BEGIN\n' + '\n' * 28 + '@\nEND\n'),
+    ('rejected: forbidden word', 'PRED-MIB DEFINITIONS ::= BEGIN\nx OBJECT IDENTIFIER ::= { FALSE 1 }\nEND\n'),
+    ('rejected by the grammar', 'PRED-MIB DEFINITIONS ::= BEGIN\nx OBJECT IDENTIFIER ::= ::= { a 1 }\nEND\n'),
+    ('accepted, comment closed by a second -- at the very end', _OKMOD + ' -- closed --'),
+    ('accepted, ends in a comment, CR line ends', _OKMOD.replace('\n', '\r') + '\r-- bye'),
+]
+
+
 BIG_NUMBERS = [('18446744073709551616', True), ('-18446744073709551616', True), ('1000000000000000000000000000000', True), ('-1000000000000000000000000000000', True),
                ('9' * 4301, True), ('-' + '9' * 5000, True), ('0' * 4400 + '7', False), ('-' + '0' * 4400 + '7', False)]
 
@@ -607,6 +704,11 @@ def sweep(tier):
                   and '--' not in f.text[f.text.rfind(f.eol, 0, m.start()) + 1:m.start()]]
         for i in range(0, len(mspans), 12):
             out.append({'k': 'dupstring', 'tier': tier, 'file': fi, 'spans': mspans[i:i + 12]})
+        for i in range(0, len(mspans), 6):
+            out.append({'k': 'mixedeol', 'tier': tier, 'file': fi, 'spans': mspans[i:i + 6], 'dialect': DIALECTS[(fi + i) % 3]})
+        for di, d in enumerate(DIALECTS):
+            for i in range(0, len(PREDECESSORS), 5):
+                out.append({'k': 'after', 'tier': tier, 'file': fi, 'dialect': d, 'preds': list(range(i, min(i + 5, len(PREDECESSORS))))})
         spans = token_spans(f)
         for i in range(0, len(spans), 60):
             out.append({'k': 'token', 'tier': tier, 'file': fi, 'spans': spans[i:i + 60]})
@@ -671,7 +773,7 @@ def shrink(scn):
             s = copy.deepcopy(scn)
             s['lo'], s['hi'] = lo, hi
             yield s
-    for key in ('lines', 'positions', 'cuts', 'spots', 'spans'):
+    for key in ('lines', 'positions', 'cuts', 'spots', 'spans', 'preds'):
         if key in scn and len(scn[key]) > 1:
             h = len(scn[key]) // 2
             for part in (scn[key][:h], scn[key][h:]):
